@@ -772,7 +772,9 @@ def stepT (s : Sess) : TOp → Sess × String
   | .dispose caps env =>
     let r := dispose simpleDec (epilogue caps) s.saved s.st env
     let res := match r.res with | .ok => "ok" | .err => "err" | .blocked => "blocked"
-    ({ s with st := r.st }, s!"{res}[{",".intercalate (showDLog r.log [] [])}]q{r.st.wq.len}e{r.st.evq.length}")
+    -- `g`: bytes by which `execute_many` makes the queue grow: the complete closing sequence
+    ({ s with st := r.st },
+      s!"{res}[{",".intercalate (showDLog r.log [] [])}]q{r.st.wq.len}e{r.st.evq.length}g{(epilogue caps).flatten.length}")
 
 def runT (s : Sess) : List TOp → List String → List String
   | [], acc => acc.reverse
